@@ -32,8 +32,8 @@ Expected(f, sk) ==
         [k \in 1..Len(nm) |-> [s |-> InsertC(nm[k].s), p |-> <<nm[k].w, T.D - MWeight(f)>>]]
 SameProb(a, b) == a[1] * b[2] = b[1] * a[2]
 
-RECURSIVE BagOfSeq(_)
-BagOfSeq(s) == IF s = <<>> THEN EmptyBag ELSE SetToBag({Head(s)}) (+) BagOfSeq(Tail(s))
+(* bag of the elements of a sequence, without recursion (long sequences overflow TLC's stack) *)
+BagOfSeq(s) == [x \in { s[i] : i \in DOMAIN s } |-> Cardinality({ i \in DOMAIN s : s[i] = x })]
 Keys(evs) == [k \in 1..Len(evs) |-> evs[k].key]
 DefRank(key) == LET k == CHOOSE k \in 1..Len(T.def) : T.def[k].key = key IN T.def[k].r
 
